@@ -40,8 +40,9 @@ Min(a, b) == IF a < b THEN a ELSE b
 Range(s) == {s[i] : i \in 1..Len(s)}
 L0 == [t |-> 0, h |-> 0, n |-> 0, k |-> 0, buf |-> <<>>, tk |-> 0, snap |-> 0]
 
-\* mark a slot carries before the first write at or after index s (all earlier turns read)
-InitMark(s, i) == LET x == CHOOSE y \in {Inc(s, d) : d \in 0..Cap-1} : Idx(y) = i IN LTR(x)
+\* mark of slot i when all indices stand at s: 0 in a fresh queue (s = 0); otherwise what the reader of the previous turn of that
+\* slot stored, this_turn_read(x - Cap) for the next index x >= s that uses the slot (StartSet: 0 or values >= Cap)
+InitMark(s, i) == LET x == CHOOSE y \in {Inc(s, d) : d \in 0..Cap-1} : Idx(y) = i IN IF s = 0 THEN 0 ELSE TTR(Diff(x, Cap))
 Init == /\ \E s \in StartSet : /\ tail = s /\ head = s /\ whead = s /\ rtail = s
                                /\ mark = [i \in 0..Cap-1 |-> InitMark(s, i)]
         /\ slot = [i \in 0..Cap-1 |-> NoVal]
